@@ -1,5 +1,5 @@
 //@ fn canonical.rs query_string_to_normalized_map
-//@ props C08 C10 C12 C13
+//@ props C08 C10 C12 C13 C17
 //@ ret res
 //@ replace 1 `query_string.split('&')` => `str_split_to_vec(query_string, '&')`
 //   (Verus for-loops do not support `continue`: the loop over the materialised Vec is desugared to an indexed while loop by two declared rewrites)
@@ -11,7 +11,7 @@
         match res {
             Ok(m) => parse_query(query_string.spec_bytes()) is Some && qmap(m@) == map_of(parse_query(query_string.spec_bytes())->Some_0),
             Err(e) => parse_query(query_string.spec_bytes()) is None,
-        }, //# C10 C12 C02 name=parsed_pairs_in_order
+        }, //# C10 C12 C02 C01 name=parsed_pairs_in_order
         res is Err ==> res->Err_0 is MalformedQueryString, //# C10 C13 name=error_kind
         res is Ok ==> forall|k: String| #[trigger] res->Ok_0@.contains_key(k) ==> res->Ok_0@[k]@.len() > 0, //# C08 name=value_lists_nonempty
         res is Ok ==> forall|k: String, i: int| res->Ok_0@.contains_key(k) && 0 <= i < res->Ok_0@[k]@.len() ==> well_escaped(str_bytes(#[trigger] res->Ok_0@[k]@[i]@)), //# C08 name=values_well_escaped
